@@ -231,6 +231,49 @@ theorem c13_sneddon_continuous (E R ν cp b : ℝ) :
   rw [this]
   exact h.add continuous_const
 
+/-- the layered Clifford model is continuous in the abscissa as well (in particular across the contact
+point), for a positive layer thickness and a non-negative geometry factor – which the parameter bounds
+(`0 ≤ ν ≤ 0.5`, `0 ≤ E`) guarantee -/
+theorem c13_clifford_continuous (E_S E_L R nu_S nu_L t cp b : ℝ) (hR : 0 ≤ R) (ht : 0 < t)
+    (hc : 0 ≤ (E_L / E_S) ^ ((2 : ℝ) / 3) * (1 - 0.22 * nu_S ^ 2) / (1 - 1.92 * nu_L ^ 2)) :
+    Continuous (fun δ => power_layer_clifford_2009 δ E_S E_L R nu_S nu_L t cp b) := by
+  have hxi_nonneg : ∀ d : ℝ, 0 ≤ cliffordXi d E_S E_L R nu_S nu_L t := by
+    intro d
+    unfold cliffordXi
+    have h1 : 0 ≤ sqrt (R * d) / t := div_nonneg (sqrt_nonneg _) ht.le
+    have e : sqrt (R * d) / t * (E_L / E_S) ^ ((2 : ℝ) / 3) * (1 - 0.22 * nu_S ^ 2) / (1 - 1.92 * nu_L ^ 2)
+        = (sqrt (R * d) / t) * ((E_L / E_S) ^ ((2 : ℝ) / 3) * (1 - 0.22 * nu_S ^ 2) / (1 - 1.92 * nu_L ^ 2)) := by
+      ring
+    rw [e]
+    exact mul_nonneg h1 hc
+  have hxi : Continuous (fun d : ℝ => cliffordXi d E_S E_L R nu_S nu_L t) := by
+    unfold cliffordXi
+    fun_prop
+  have hpow : Continuous (fun d : ℝ => cliffordXi d E_S E_L R nu_S nu_L t ^ (1.5 : ℝ)) :=
+    hxi.rpow_const (fun _ => Or.inr (by norm_num))
+  have hden : ∀ d : ℝ, 1 + 2.25 * cliffordXi d E_S E_L R nu_S nu_L t ^ (1.5 : ℝ) ≠ 0 := by
+    intro d
+    have := rpow_nonneg (hxi_nonneg d) (1.5 : ℝ)
+    have : 0 < 1 + 2.25 * cliffordXi d E_S E_L R nu_S nu_L t ^ (1.5 : ℝ) := by positivity
+    exact this.ne'
+  have hE : Continuous (fun d : ℝ => cliffordEstar d E_S E_L R nu_S nu_L t) := by
+    unfold cliffordEstar
+    exact continuous_const.add ((continuous_const.mul (continuous_const.mul hpow)).div
+      (continuous_const.add (continuous_const.mul hpow)) hden)
+  have h := continuous_contact
+    (f := fun d => 4 / 3 * cliffordEstar d E_S E_L R nu_S nu_L t * sqrt R * d ^ ((3 : ℝ) / 2))
+    (((continuous_const.mul hE).mul continuous_const).mul
+      (continuous_id.rpow_const (fun _ => Or.inr (by norm_num))))
+    (by simp [zero_rpow]) cp
+  have : (fun δ => power_layer_clifford_2009 δ E_S E_L R nu_S nu_L t cp b) =
+      fun δ => (if cp - δ > 0 then
+        4 / 3 * cliffordEstar (cp - δ) E_S E_L R nu_S nu_L t * sqrt R * (cp - δ) ^ ((3 : ℝ) / 2) else 0) + b := by
+    funext δ
+    rw [c02_power_layer_clifford_eq_spec _ _ _ _ _ _ _ _ _ hR]; unfold powerLayerClifford
+    split <;> simp
+  rw [this]
+  exact h.add continuous_const
+
 /-- non-vacuity: the hypotheses of the sphere theorem hold for the shipped defaults
 (E = 3 kPa, R = 10 µm, ν = 0.5) and depths 0.5 µm ≤ 2 µm -/
 example : (0 : ℝ) ≤ 3000 ∧ (0.5 : ℝ) ^ 2 < 1 ∧ (0 : ℝ) < 1e-5 ∧ (0 : ℝ) ≤ 5e-7 ∧ (5e-7 : ℝ) ≤ 2e-6
